@@ -66,7 +66,11 @@ def accept_set(ctx, spec, keys, allowed, names=None, targets="nonfalse", init=No
             out.append(ctx.err(spec, "cannot decide accept-set of %s: %s (line %d)" % (label, un[0][1], un[0][0].lineno), fn, mod))
             continue
         extra = acc.minus(allowed)
-        w = extra.witness(prefer)
+        w = _residue_witness(fn, ra, k, extra, tnodes, prefer)
+        if w is None:
+            out.append(ctx.ok(spec, "accept-set of %s = %s; the values outside %s are excluded by the residue tests on the path" % (
+                label, acc.describe(names), allowed.describe(names)), fn, mod, key=k))
+            continue
         # a concrete path for the witness: first target whose state admits it
         wn = next((n for n in tnodes if ra.at(n.id, k).contains(w)), tnodes[0])
         p = cfg_of(fn).path([cfg_of(fn).entry], [wn.id])
@@ -75,6 +79,40 @@ def accept_set(ctx, spec, keys, allowed, names=None, targets="nonfalse", init=No
             key="accept:%s" % k, detail={"witness_value": str(w), "accept_set": repr(acc), "allowed": repr(allowed),
                                           "path": cfg_of(fn).fmt_path(p or [])}))
     return out
+
+
+def _residue_witness(fn, ra, key, extra, tnodes, prefer):
+    """A member of `extra` that also satisfies the residue tests (x % m == c) every path to a target must pass."""
+    cfg = cfg_of(fn)
+    cons = []
+    tids = {n.id for n in tnodes}
+    for nid, (k, mul, add, m, c, is_eq) in ra.mod_tests.items():
+        if k != key:
+            continue
+        reach = {}
+        for b, l in cfg.succ[nid]:
+            if l in (True, False):
+                reach[l] = bool(cfg.reach([b]) & tids)
+        # is the test on every path to the targets?
+        on_all = not (cfg.reach([cfg.entry], blocked={nid}) & tids)
+        if on_all and reach.get(True) != reach.get(False):
+            passing = True if reach.get(True) else False
+            cons.append((mul, add, m, c, passing == is_eq))
+    if not cons:
+        return extra.witness(prefer)
+    cands = [p for p in prefer if extra.contains(p)]
+    for lo, hi in extra.iv:
+        start = lo if lo is not None else (hi - 100000 if hi is not None else -50000)
+        for v in range(start, start + 200000):
+            if hi is not None and v > hi:
+                break
+            cands.append(v)
+            if len(cands) > 400000:
+                break
+    for v in cands:
+        if all((((mul * v + add) % m) == c) == want for mul, add, m, c, want in cons):
+            return v
+    return None
 
 
 def _fmt(v, names):
